@@ -64,7 +64,7 @@ BASE_TOKENS = [
     # << >>
     "<<x>>", "<<>>", "<<a/b>>", "<", ">", "</", "/>", "<=", ">=",
     # nowiki, comments, pre
-    "<nowiki>", "</nowiki>", "<nowiki/>", "<nowiki />", "<NOWIKI>", "<!--", "-->", "<!-- c -->",
+    "<nowiki>", "</nowiki>", "<nowiki/>", "<nowiki />", "<NOWIKI>", "<!--", "-->", "<!-- c -->", "<nowiki></nowiki>", "<!---->",
     "<pre>", "</pre>", "<pre/>", "<PRE class=\"x\">", "</pre >", "<pre\n>",
     # magic words
     "__NOTOC__", "__TOC__", "__NOEDITSECTION__", "__FOO__", "__notoc__",
@@ -142,7 +142,7 @@ def grammar_doc(rng, depth=3):
         if c < 0.85:
             return "[http://x.org " + inline(d - 1) + "]"
         if c < 0.9:
-            return "<nowiki>" + rng.choice(["''x''", "== h ==", "{{t}}", "|"]) + "</nowiki>"
+            return "<nowiki>" + rng.choice(["''x''", "== h ==", "{{t}}", "|", ""]) + "</nowiki>"
         return inline(d - 1) + " " + inline(d - 1)
 
     def block(d):
@@ -173,6 +173,29 @@ def grammar_doc(rng, depth=3):
         return inline(d) + "\n" + inline(d)
 
     return "\n".join(block(depth) for _ in range(rng.randint(1, 6))) + rng.choice(["", "\n"])
+
+
+# ---------------------------------------------------------------------------
+# leaves that contribute NO text, as the only / first / last content of every kind of container
+# (what the tokenizer hands on as an empty string must not survive as a child or an argument part)
+# ---------------------------------------------------------------------------
+EMPTY_LEAVES = ["<nowiki></nowiki>", "<NOWIKI></NOWIKI>", "<nowiki/>", "<!---->", "<!-- c -->", "<noinclude></noinclude>",
+                "<includeonly></includeonly>", "<onlyinclude></onlyinclude>", "<nowiki></nowiki><nowiki></nowiki>"]
+CONTAINERS = ["@", "''@''", "'''@'''", "'''''@'''''", "<b>@</b>", "<span class=\"c\">@</span>", "<div>@</div>", "<ref>@</ref>",
+              "<ul><li>@</li></ul>", "<sup>@", "[[p|@]]", "[[@]]", "[[p|a|@]]", "[http://x.org @]", "[@]", "{{t|@}}", "{{t|@|b}}",
+              "{{t|k=@}}", "{{@}}", "{{#if:@|y|n}}", "{{#if:x|@}}", "{{{1|@}}}", "{{{@}}}", "=@=", "==@==", "=== @ ===", "======@======",
+              "*@", "* @", "#@", ":@", ";@", ";@:@", "; t : @", "*#@", "{|\n|@\n|}", "{|\n!@\n|}", "{|\n|+@\n|}", "{|\n|a||@\n|}",
+              "{|\n|-\n|@||b\n|}", "{| @\n|}", "<pre>@</pre>", " @", " a\n @", "----@", "__NOTOC__@", "<br>@", "http://x.org@"]
+
+
+def empty_leaf_docs():
+    out = []
+    for c in CONTAINERS:
+        for e in EMPTY_LEAVES:
+            for filler in (e, "w" + e, e + "w", e + "\n", "\n" + e, e + " " + e):
+                out.append(c.replace("@", filler))
+                out.append("w\n" + c.replace("@", filler) + "\nw")
+    return out
 
 
 # ---------------------------------------------------------------------------
@@ -609,6 +632,7 @@ def make_v_docs(tier, rng):
     # (own generator: the other families keep the inputs they had before this one was added)
     rng2 = random.Random(common.seed() * 32452843 + 7)
     docs["nested"] = [nested_doc(rng2) for _ in range(150000 if thorough else 2500)]
+    docs["emptyleaf"] = empty_leaf_docs()
     return docs
 
 
@@ -734,7 +758,7 @@ def run(tier: str) -> int:
     o.rule = ("M/G: every chunk sequence reachable in the universes of Gen_Parser (chunk universes: one chunk per step; line "
               "universes nest*: one line = list prefix + body per step) is one case (parsed in its primary and "
               "alternative spellings; line universes: primary spelling); V: every generated input (token soup over the full "
-              "concrete alphabet, grammar document, nested line document, page mutation, "
+              "concrete alphabet, grammar document, nested line document, container x empty-leaf document, page mutation, "
               "ladder document) x 3 parse modes is one evaluation; trees are de-duplicated by shape before TLC "
               "validates them with WellFormed; distinct_nontrivial counts distinct tree shapes with >= 2 node kinds.")
     o.assumptions = [
@@ -751,7 +775,7 @@ def run(tier: str) -> int:
     run_demos(o)
     rng = random.Random(common.seed() * 15485863 + 1)
     docs = make_v_docs(tier, rng)
-    for origin in ("ladder", "grammar", "nested", "mutation", "soup"):
+    for origin in ("ladder", "emptyleaf", "grammar", "nested", "mutation", "soup"):
         t1 = time.time()
         check_batch(o, docs[origin], origin)
         o.extra["phase_seconds"]["V:" + origin] = round(time.time() - t1, 1)
